@@ -108,8 +108,10 @@ func (p *Program) verifyFunc(fi *FuncInfo, spec *FuncSpec) (c *Ctx, err error) {
 		}
 		x.wfValue(st, val)
 		x.bindParam(f, st, v, val)
+		c.inputVals = append(c.inputVals, inputVal{Name: hint, IsRecv: sig.Recv() == v, V: val})
 		return val
 	}
+	c.fi = fi
 	if sig.Recv() != nil {
 		rn := sig.Recv().Name()
 		if rn == "" || rn == "_" {
@@ -214,6 +216,8 @@ func (p *Program) verifyFunc(fi *FuncInfo, spec *FuncSpec) (c *Ctx, err error) {
 			pnames[k] = v
 		}
 		bindResults(pnames, sig, vals)
+		c.curResults = vals
+		defer func() { c.curResults = nil }()
 		penv := &SpecEnv{x: x, st: fin, old: f.old, names: pnames, oldNames: names, pkg: f.pkg, frame: f, pos: fi.Decl.Body.Rbrace}
 		for i := range spec.Ensures {
 			cl := &spec.Ensures[i]
